@@ -1,102 +1,207 @@
 #!/usr/bin/env python3
-import json
+"""Generates props/C3x/findings.json for the editing-API group (C36–C41).
+
+A finding = an INPUT CLASS (regex over the sorted JSON of the case input: class flags `feat` computed by
+harness/edit/feat.go from the source form of the addressed element, the operation kind, sometimes the text) plus the
+SET OF CLAUSES the unchanged oracle is known to break on that class.  The driver's signature lists every failing
+clause joined by "+"; the finding's sig regex accepts any non-empty subset of its clause set, so a change that breaks a
+further clause on the same inputs is still reported.
+
+  mkfindings.py            writes the findings from the tables below
+  mkfindings.py --mine DIR  additionally reads mined streams (DIR/c3x-<seed>.jsonl + .verd, one verdict per line) and
+                           prints, per class, clauses seen that are not yet in its set, and unmatched failures
+Closed by fixes on /repo main (kept out, see props/*/findings_fixed.json): C38-delete-object-leaks-dotted-attributes-
+to-parent, C39-move-into-own-descendant, C40-move-deltas-stack-overflow, C40-move-into-own-descendant,
+C40-rename-uniqueness-scope-differs, C40-delete-deltas-predict-for-removed-edges,
+C40-reconnect-deltas-ignore-arrows-and-order, C40-refinement-delete-leaks-dotted-attributes.
+"""
+import json, re, sys, glob, collections
+
 def F(*feats):
-    # features appear in sorted order inside "feat": [...]
-    fs=sorted(feats)
+    fs = sorted(feats)
     return r'"feat": \[' + ''.join(r'[^\]]*"%s"' % f for f in fs)
 def ANY(*feats):
     return r'"feat": \[[^\]]*"(%s)"' % '|'.join(feats)
-FLAT=ANY('x-flat','anc-flat','sub-flat','dest-flat')
-find={
-'C36':[
- dict(id='C36-format-not-idempotent-when-boards-are-not-last', sig='import-formatter-changes-new-text', input=r'layers: \{\\n  l1: \{\\n[^"]*?\\n  \}\\n\}\\n[^"]',
-      what='d2oracle.UpdateImport returns Format(ast) of a text whose `layers` block is not the last key: the formatter moves boards last but emits a leading blank line and no separating blank line, which a second Format pass changes (formatter idempotence defect, C03) — witness: `layers: {l1: {...@bar}}` followed by `a -> b: AB`'),
-],
-'C37':[
- dict(id='C37-create-parallel-edge-renumbers-existing', sig='create-changed-existing-edge|create-returned-existing-id', input=F('t-edge-dotted')+r'.*"kind": "create"',
-      what='d2oracle.Create of a connection parallel to an existing one whose declaration lies in an outer scope inserts the new declaration earlier in the file: the EXISTING connection is renumbered and the returned key names the old one (witness: `z: L1; z.z: L2 {y: L3}; z.z.y -- z.z: E4`, Create("z.z.y -- z.z") returns z.(z.y -- z)[1] which is E4)'),
-],
-'C38':[
- dict(id='C38-delete-unsupported-attribute-is-a-silent-noop', sig='delattr-not-reset-unsupported-attribute',
-      what='d2oracle.Delete of x.label / x.shape / x.direction (anything deleteReserved has no case for) returns success and leaves the attribute set'),
- dict(id='C38-delete-object-leaks-dotted-attributes-to-parent', sig='delobj-(changed-attrs|not-removed|lost-object|new-element)', input=F('x-flat-attr'),
-      what='d2oracle.Delete("a.x") with a dotted attribute reference `a.x.shape: hexagon` rewrites it to `a.shape: hexagon`: the parent takes over the deleted object\'s attribute/label (deleteObject only drops the key when nothing but reserved segments remain)'),
- dict(id='C38-board-scoped-delete-uses-null-children-not-hoisted', sig='delobj-(lost-object|lost-edge|not-removed|child-not-hoisted|attached-edge-kept)|deledge-(not-removed|removed-other-edge|renumber)|labels-duplicated', input=F('board-nested'),
-      what='d2oracle.Delete addressed to a nested board appends `key: null` when the target (or a child) is inherited or when earlier nulls exist: the whole subtree is removed, children are not hoisted, later parallel connections are not renumbered'),
- dict(id='C38-delete-style-attribute-also-strips-descendants', sig='delattr-changed-other-object', input=F('sub-flat','x-children'),
-      what='d2oracle.Delete("y.style.bold") also removes style.bold from descendants of y that are declared with dotted keys (deleteObjField walks every reference whose key passes through y)'),
- dict(id='C38-delete-edge-attribute-removes-sibling-arrowhead-field', sig='delattr-changed-other-attr|delattr-not-reset', input=F('x-arrowhead'),
-      what='d2oracle.Delete of `(a -> a)[0].label` or of one arrowhead field removes the same-named field of the other arrowhead map (deleteMapField matches the last path segment only)'),
- dict(id='C38-duplicate-style-key-survives-delete', sig='delattr-not-reset', input=r'(style\.)?text-transform: [A-Za-z]+\\n\s*(style\.)?text-transform:',
-      what='after Set(style.text-transform=Lowercase) and Set(…=uppercase) the map holds the key twice (the case-normalised value is not recognised as the same field); Delete removes one occurrence and the attribute stays set'),
- dict(id='C38-hoist-does-not-rewrite-underscore-references', sig='delobj-(new-element|edge-detached|lost-edge|changed-other-id)', input=ANY('sub-underscore','x-underscore','sube-edge-in-map'),
-      what='d2oracle.Delete of a container whose children contain connections written with `_` parent references strips one `_` only: `_.x <-> c` inside d.q becomes `x <-> c` inside q and now names q.x (a new object) instead of x'),
-],
-'C39':[
- dict(id='C39-move-into-own-descendant', sig='move-(lost-moved-object|lost-object|wrong-destination-parent|new-object|changed-attrs|descendant-misplaced|lost-edge)|labels-duplicated|panic-move|fatal-move', input=F('dest-inside-x'),
-      what='d2oracle.Move(x → x.y…) (destination inside the moved object) is accepted and deletes or duplicates the subtree (witness: `e: L1`, Move("e","e.e") → e vanishes)'),
- dict(id='C39-move-on-dotted-keys-corrupts', sig='move-(lost-object|lost-moved-object|wrong-destination-parent|changed-attrs|descendant-misplaced|changed-other-id|new-object|edge-detached|lost-edge|changed-edge-attrs)|labels-duplicated|panic-(move|rename)', input=FLAT,
-      what='d2oracle.Move / Rename of an object that (or whose ancestor, descendant or destination container) is declared with a dotted key (`a.d: L5 {…}`) keeps the primary value with the truncated key or splits label and map: labels of other objects are overwritten, the moved object loses its label, or move panics with slice bounds out of range (witness: `a: L1 {x: L91}; a.d: L5`, Move("a.d","a.x.d") → `a: L5`, new unlabeled a.x.d)'),
- dict(id='C39-move-panics-on-dotted-connection-endpoints', sig='panic-(move|rename)', input=ANY('x-edge-dotted','sub-edge-dotted','anc-edge-dotted','t-underscore'), detail='out of range',
-      what='d2oracle.Move of an object whose subtree is referenced by dotted connection endpoints (`a.z.x <-> q`) panics: slice bounds out of range [-1:] / index out of range [2] with length 1 (witness: `a: L0; d.e.c: L1; a -> a: E0`, Move("d.e.c","d.b",false))'),
- dict(id='C39-move-ignores-indexed-connection-references', sig='move-(new-object|lost-edge|edge-detached|changed-edge-attrs|lost-object)|labels-duplicated', input=ANY('sube-edge-multiref','xe-edge-multiref'),
-      what='d2oracle.Move / Rename does not rewrite indexed connection references `(x <- z.q.c.d)[1].style.opacity: 0.5` whose endpoint lies in the moved subtree: the stale key re-creates the old path as new objects and a new connection'),
- dict(id='C39-move-does-not-rewrite-underscore-references', sig='move-(new-object|lost-edge|edge-detached|changed-edge-attrs|lost-object|descendant-misplaced)|labels-duplicated', input=ANY('x-underscore','sub-underscore','anc-underscore','dest-underscore'),
-      what='d2oracle.Move of an object that is referenced through `_` parent references inside another container (`_.y.q.a -> _.y.q` within `b 2`) leaves those references pointing at the old path, which re-creates it'),
- dict(id='C39-board-scoped-move-leaves-the-board', sig='move-(lost-moved-object|lost-object|new-object)', input=F('board-nested'),
-      what='d2oracle.Move addressed to a nested board that moves an object to the board root writes the object into the FILE root instead of the board\'s own map: it vanishes from the board (witness: layer l1 {q: {e}}, Move(["l1"],"q.e","e"))'),
-],
-'C40':[
- dict(id='C40-move-deltas-stack-overflow', sig='deltas-(fatal|panic)-move', input=F('dest-inside-x'),
-      what='d2oracle.MoveIDDeltas(g, "y", "y.y", …) re-parents the object under its own descendant and recurses forever in Object.AbsID: fatal stack overflow (not recoverable)'),
- dict(id='C40-move-into-own-descendant', sig='move-.*', input=F('dest-inside-x'),
-      what='predictions for a Move into the moved object\'s own descendant cannot agree with the edit, which deletes the subtree (see C39-move-into-own-descendant)'),
- dict(id='C40-rename-uniqueness-scope-differs', sig='rename-(object|edge)-id-not-predicted', input=F('newname-root-sibling-mismatch'),
-      what='d2oracle.Rename makes the new name unique against the ROOT scope (generateUniqueKey(newName)) while RenameIDDeltas makes it unique among the siblings (generateUniqueKey(full path)): `z: L1; z.c: L2`, Rename("z.c","z") yields z.z 2 but z.z is predicted'),
- dict(id='C40-move-on-dotted-keys-corrupts', sig='(move|rename)-.*', input=FLAT,
-      what='the edit itself is wrong on dotted-key sources (C39-move-on-dotted-keys-corrupts), so the prediction cannot agree'),
- dict(id='C40-delete-deltas-predict-for-removed-edges', sig='delete-prediction-for-removed-edge', input=F('x-children','x-edge-attached'),
-      what='DeleteIDDeltas predicts a new ID for a connection between the deleted object and one of its descendants (`a: {e}; a.e -> a`), which the delete removes'),
- dict(id='C40-delete-on-board-null-mode', sig='delete-prediction-for-removed-(object|edge)|delete-(object|edge)-id-not-predicted|delete-refinement', input=F('board-nested'),
-      what='board-scoped Delete appends `key: null` (children removed, no renumbering) while DeleteIDDeltas predicts the hoisting/renumbering of the in-place delete'),
- dict(id='C40-reconnect-deltas-ignore-arrows-and-order', sig='reconnect-edge-id-not-predicted',
-      what='ReconnectEdgeIDDeltas counts/bumps connections with the same endpoints regardless of their arrows and predicts the new index from source line numbers; the edit recompiles and indexes per (src,dst,arrows) group in file order (witness: `y -> y: E3; y -> y: E4; y <-> a: E5`, reconnect (y -> y)[1] dst→a predicts (y <-> a)[0]→[1])'),
- dict(id='C40-rename-edge-arrows-shifts-groups', sig='rename-edge-id-not-predicted', input=r'"kind": "rename"',
-      what='renaming a connection (changing its arrows) moves it to another parallel group: the remaining connections of the old group are renumbered, RenameIDDeltas predicts only the renamed connection'),
- dict(id='C40-rename-case-only', sig='rename-(object|edge)-id-not-predicted', input=F('rename-case-only'),
-      what='Rename("Y","y") (same name up to case) yields "y 2": the uniqueness check of Rename does not ignore the object itself when the new name differs only in case; RenameIDDeltas predicts "y"'),
- dict(id='C40-rename-to-dotted-name', sig='rename-(object|edge)-id-not-predicted', input=r'"newName": "a[.]b"',
-      what='Rename(x, "a.b") (a new name containing a dot) is made unique as if it were the path a.b; Rename and RenameIDDeltas disagree on the quoting/uniqueness of such names'),
- dict(id='C40-rename-to-edge-like-name', sig='rename-object-id-not-predicted', input=r'"newName": "x -> y"',
-      what='Rename(c, "x -> y") names the object "(x -> y)[0]" (generateUniqueKey parses the bare new name as a connection) while RenameIDDeltas predicts "x -> y"'),
- dict(id='C40-move-deltas-same-scope-predicts-hoist-renames', sig='move-(object|edge)-id-not-predicted', input=F('child-name-taken-in-parent','same-scope'),
-      what='MoveIDDeltas(includeDescendants=false) computes the collision renames of hoisted children even for a same-scope move (a rename), where the children stay under the object: `c; a; d: {c}`, Move("d","a") keeps a 2.c but a 2.c 2 is predicted'),
- dict(id='C40-refinement-delete-leaks-dotted-attributes', sig='delete-refinement', input=F('x-flat-attr'),
-      what='the real Delete is not the abstract delete: see C38-delete-object-leaks-dotted-attributes-to-parent (the IDs still agree with the prediction, the parent\'s attributes do not)'),
- dict(id='C40-refinement-move-on-dotted-keys', sig='(move|rename)-refinement', input=FLAT,
-      what='the real Move is not the abstract move on dotted-key sources: see C39-move-on-dotted-keys-corrupts'),
- dict(id='C40-refinement-underscore', sig='(delete|move|rename)-refinement', input=ANY('sub-underscore','x-underscore','sube-edge-in-map','t-underscore'),
-      what='see C38-hoist-does-not-rewrite-underscore-references'),
- dict(id='C40-board-scoped-move-leaves-the-board', sig='move-prediction-for-removed-(object|edge)|move-(object|edge)-id-not-predicted|move-refinement', input=F('board-nested'),
-      what='see C39-board-scoped-move-leaves-the-board: a Move addressed to a nested board that targets the board root writes into the file root, the object vanishes from the board while MoveIDDeltas predicts its new ID'),
- dict(id='C40-move-deltas-collision-name-ignores-hoisted-siblings', sig='move-(object|edge)-id-not-predicted', input=F('child-name-taken-in-parent','x-children'),
-      what='MoveIDDeltas(includeDescendants=false) picks the collision name of a hoisted child without looking at its siblings that are hoisted too (DeleteIDDeltas does): `c: {z: {e; e 2}; e}`, Move("c.z","d") yields c.e 3 but c.e 2 is predicted'),
- dict(id='C40-delete-flat-attr', sig='delete-.*', input=F('x-flat-attr'),
-      what='see C38-delete-object-leaks-dotted-attributes-to-parent: elements are mismatched after the leak'),
-],
-'C41':[
- dict(id='C41-board-edit-of-inherited-element-writes-base', sig='(refused-)?scoped-other-board-changed', input=ANY('x-inherited','sub-inherited','dest-inherited'),
-      what='an edit addressed to a nested board whose target (or a child / the destination container) is inherited from the base board edits the base board\'s declaration in place (witness: `y: {style.fill: red}; scenarios: {s1: {b}}`, Delete(["s1"], "y.style.fill") removes the fill from the root board)'),
- dict(id='C41-board-scoped-connection-rename-edits-the-root-board', sig='(refused-)?scoped-other-board-changed', input=F('board-nested')+r'.*"key": "[^"]*\(.*"kind": "rename"',
-      what='d2oracle.Rename / Move of a CONNECTION addressed to a nested board looks the connection up in the root graph (`obj := g.Root` in move) and rewrites the arrows of the root board\'s connection with the same key (witness: root `c -- c` x2, layer l1 `c -- c` x3, Rename(["l1"], "(c -- c)[1]", "(c <-> c)[1]") changes the root board)'),
-],
-}
-for p,fs in find.items():
-    out=[]
-    for f in fs:
-        m={'sig':f['sig']}
-        if 'input' in f: m['input']=f['input']
-        if 'detail' in f: m['detail']=f['detail']
-        out.append({'id':f['id'],'property':p,'status':'open','match':m,'what':f['what']})
-    json.dump(out,open(f'/verif/props/{p}/findings.json','w'),indent=1)
+def K(kind):
+    return r'.*"kind": "%s"' % kind
+ATTR = r'.*"op": \{"attr": "[^"]+"'
+def CL(cs):
+    alt = '|'.join(sorted(re.escape(c) for c in cs))
+    return r'(%s)(\+(%s))*' % (alt, alt)
 
+# (id, property, input regex or None, clause set, what)
+T = [
+ ('C36-format-not-idempotent-when-boards-are-not-last', 'C36', r'layers: \{\\n  l1: \{\\n(?:[^"\\]|\\.)*?\\n  \}\\n\}\\n[^"]',
+  ['import-formatter-changes-new-text'],
+  'd2oracle.UpdateImport returns Format(ast) of a text whose `layers` block is not the last key: the formatter moves boards last but emits a leading blank line and no separating blank line, which a second Format pass changes (formatter idempotence defect, C03)'),
+
+ ('C37-create-parallel-edge-renumbers-existing', 'C37', F('t-edge-dotted') + K('create'),
+  ['create-changed-existing-edge', 'create-returned-existing-id'],
+  'd2oracle.Create of a connection parallel to an existing one whose declaration lies in an outer scope inserts the new declaration earlier in the file: the EXISTING connection is renumbered and the returned key names the old one (witness: `z: L1; z.z: L2 {y: L3}; z.z.y -- z.z: E4`, Create("z.z.y -- z.z"))'),
+ ('C37-set-label-overridden-by-later-reference', 'C37', F('x-edge-multiref') + K('set'),
+  ['set-value-differs'],
+  'd2oracle.Set of a connection label rewrites the FIRST reference that carries one (`(m1 -> m2)[0].label: E93`) although a later reference (`(m1 -> m2)[0]: E15`) overrides it: the label does not change'),
+
+ ('C38-delete-unsupported-attribute-is-a-silent-noop', 'C38', None, ['delattr-not-reset-unsupported-attribute'],
+  'd2oracle.Delete of x.label / x.shape / x.direction (anything deleteReserved has no case for) returns success and leaves the attribute set'),
+ ('C38-board-scoped-delete-uses-null-children-not-hoisted', 'C38', F('board-nested') + K('delete'),
+  ['delobj-lost-object', 'delobj-lost-edge', 'delobj-not-removed', 'delobj-child-not-hoisted', 'delobj-attached-edge-kept', 'delobj-rename-invalid',
+   'deledge-not-removed', 'deledge-removed-other-edge', 'deledge-renumber', 'labels-duplicated', 'deledge-result-not-exact'],
+  'd2oracle.Delete addressed to a nested board appends `key: null` when the target (or a child) is inherited or when earlier nulls exist: the whole subtree is removed, children are not hoisted, later parallel connections are not renumbered'),
+ ('C38-delete-style-attribute-also-strips-descendants', 'C38', F('sub-flat', 'x-children') + ATTR,
+  ['delattr-changed-other-object'],
+  'd2oracle.Delete("y.style.bold") also removes style.bold from descendants of y that are declared with dotted keys'),
+ ('C38-delete-edge-attribute-removes-sibling-arrowhead-field', 'C38', F('x-arrowhead') + ATTR,
+  ['delattr-changed-other-attr', 'delattr-not-reset'],
+  'd2oracle.Delete of `(a -> a)[0].label` or of one arrowhead field removes the same-named field of the other arrowhead map (deleteMapField matches the last path segment only)'),
+ ('C38-delete-attribute-of-chain-connection', 'C38', F('x-chain') + ATTR, ['delattr-not-reset'],
+  'd2oracle.Delete of an attribute that a connection has from the map of its chain (`a -> b -> c: {style.stroke: red}`) does nothing: deleteEdgeField skips chain references'),
+ ('C38-delete-attribute-of-quoted-name', 'C38', F('x-quoted') + ATTR, ['delattr-not-reset'],
+  'd2oracle.Delete("\\"q.r\\".style.fill") on an object whose name needs quotes leaves the attribute set'),
+ ('C38-duplicate-style-key-survives-delete', 'C38', r'(style\.)?text-transform: [A-Za-z]+\\n\s*(style\.)?text-transform:', ['delattr-not-reset'],
+  'after Set(style.text-transform=Lowercase) and Set(…=uppercase) the map holds the key twice; Delete removes one occurrence and the attribute stays set'),
+ ('C38-hoist-does-not-rewrite-underscore-references', 'C38', ANY('sub-underscore', 'x-underscore', 'sube-edge-in-map', 't-underscore') + K('delete'),
+  ['delobj-new-element', 'delobj-edge-detached', 'delobj-lost-edge', 'delobj-changed-other-id', 'delobj-lost-object'],
+  'd2oracle.Delete of a container whose children contain connections written with `_` parent references strips one `_` only: `_.x <-> c` inside d.q becomes `x <-> c` inside q and now names q.x'),
+
+ ('C39-move-dotted-declaration-with-map', 'C39', F('cross-scope', 'x-flat-map') + K('move'), [],
+  'd2oracle.Move across scopes of an object declared through a dotted key with a map (`a.d: L5 {…}`) splits label and map wrongly: the label stays with the truncated key (overwriting another object\'s label), the moved object loses label/attributes'),
+ ('C39-move-into-dotted-destination', 'C39', F('cross-scope', 'dest-flat') + K('move'), [],
+  'd2oracle.Move into a container that is declared through dotted keys sometimes puts the object under the wrong parent / re-creates the destination'),
+ ('C39-move-with-dotted-descendants', 'C39', F('cross-scope', 'sub-flat') + K('move'), [],
+  'd2oracle.Move across scopes of a container whose descendants are declared through dotted keys loses or misplaces them'),
+ ('C39-move-ensure-node-in-wrong-scope', 'C39', F('anc-edge-dotted', 'x-edge-dotted') + K('move'), ['move-new-object'],
+  'd2oracle.Move of `m6.e.x` (three levels deep, referenced by a dotted connection endpoint `m6.e.x.d -> m6`) adds a bare key `e` at the file root: a new root object appears'),
+ ('C39-move-panics-on-dotted-connection-endpoints', 'C39', ANY('x-edge-dotted', 'sub-edge-dotted', 'anc-edge-dotted', 't-underscore') + K('move'), ['panic-move'],
+  'd2oracle.Move of an object whose subtree is referenced by dotted connection endpoints (`a.z.x <-> q`) panics: slice bounds out of range [-1:] / index out of range (witness: `a: L0; d.e.c: L1; a -> a: E0`, Move("d.e.c","d.b",false))'),
+ ('C39-move-ignores-indexed-connection-references', 'C39', ANY('sube-edge-multiref', 'xe-edge-multiref'), ['move-new-object', 'move-lost-edge', 'move-edge-detached', 'move-changed-edge-attrs', 'move-lost-object', 'labels-duplicated'],
+  'd2oracle.Move / Rename does not rewrite indexed connection references `(x <- z.q.c.d)[1].style.opacity: 0.5` whose endpoint lies in the moved subtree: the stale key re-creates the old path as new objects and a new connection'),
+ ('C39-move-does-not-rewrite-underscore-references', 'C39', ANY('x-underscore', 'sub-underscore', 'anc-underscore', 'dest-underscore', 't-underscore'), ['move-new-object', 'move-lost-edge', 'move-edge-detached', 'move-changed-edge-attrs', 'move-lost-object', 'move-descendant-misplaced', 'labels-duplicated'],
+  'd2oracle.Move of an object that is referenced through `_` parent references inside another container leaves those references pointing at the old path, which re-creates it'),
+ ('C39-board-scoped-move-leaves-the-board', 'C39', F('board-nested') + K('move'), ['move-lost-moved-object', 'move-lost-object', 'move-new-object'],
+  'd2oracle.Move addressed to a nested board that moves an object to the board root writes the object into the FILE root instead of the board\'s own map: it vanishes from the board'),
+
+]
+# C40 / C41 tables (clause sets filled from mining, see SETS)
+T += [
+ ('C40-move-dotted-declaration-with-map', 'C40', F('cross-scope', 'x-flat-map') + K('move'), [],
+  'the Move itself is wrong on this input class (C39-move-dotted-declaration-with-map), so the prediction cannot agree'),
+ ('C40-move-into-dotted-destination', 'C40', F('cross-scope', 'dest-flat') + K('move'), [], 'see C39-move-into-dotted-destination'),
+ ('C40-move-with-dotted-descendants', 'C40', F('cross-scope', 'sub-flat') + K('move'), [], 'see C39-move-with-dotted-descendants'),
+ ('C40-move-dotted-attribute-inside-ancestor-map', 'C40', F('anc-multiref', 'cross-scope', 'x-flat-attr') + K('move'), ['move-prediction-for-removed-object'],
+  'Move across scopes of an object with dotted attribute keys that are also written inside an ancestor map (`a b: {q.width: 120}` next to `a b.q: L7`): the object is lost while a new ID is predicted'),
+ ('C40-reconnect-with-indexed-references', 'C40', F('x-edge-multiref') + K('reconnect'), ['reconnect-prediction-for-removed-edge', 'reconnect-edge-id-not-predicted'],
+  'ReconnectEdge rewrites the declaring reference only: indexed references `(m3 -> m4)[0]: E8` keep the old endpoints, so the label/attributes they carry are lost or re-create the old connection'),
+ ('C40-delete-on-board-null-mode', 'C40', F('board-nested') + K('delete'), ['delete-prediction-for-removed-object', 'delete-prediction-for-removed-edge', 'delete-object-id-not-predicted', 'delete-edge-id-not-predicted', 'delete-refinement'],
+  'board-scoped Delete appends `key: null` (children removed, no renumbering) while DeleteIDDeltas predicts the hoisting/renumbering of the in-place delete'),
+ ('C40-rename-edge-arrows-shifts-groups', 'C40', r'"key": "(?:[^"\\]|\\.)*\((?:[^"\\]|\\.)*", "kind": "rename"', ['rename-edge-id-not-predicted'],
+  'renaming a connection (changing its arrows) moves it to another parallel group: the remaining connections of the old group are renumbered, RenameIDDeltas predicts only the renamed connection'),
+ ('C40-rename-case-only', 'C40', F('rename-case-only'), ['rename-object-id-not-predicted', 'rename-edge-id-not-predicted'],
+  'Rename("Y","y") (same name up to case) yields "y 2"; RenameIDDeltas predicts "y"'),
+ ('C40-rename-to-dotted-name', 'C40', r'"newName": "a[.]b"', ['rename-object-id-not-predicted', 'rename-edge-id-not-predicted'],
+  'Rename(x, "a.b") (a new name containing a dot): Rename and RenameIDDeltas disagree on quoting/uniqueness (not generated by default)'),
+ ('C40-rename-to-edge-like-name', 'C40', r'"newName": "x -> y"', ['rename-object-id-not-predicted'],
+  'Rename(c, "x -> y") names the object "(x -> y)[0]" while RenameIDDeltas predicts "x -> y" (not generated by default)'),
+ ('C40-move-deltas-same-scope-predicts-hoist-renames', 'C40', F('child-name-taken-in-parent', 'same-scope') + K('move'),
+  ['move-object-id-not-predicted', 'move-edge-id-not-predicted'],
+  'MoveIDDeltas(includeDescendants=false) computes the collision renames of hoisted children even for a same-scope move, where the children stay under the object'),
+ ('C40-move-deltas-collision-name-ignores-hoisted-siblings', 'C40', F('clashing-child-has-numbered-sibling') + K('move'),
+  ['move-object-id-not-predicted', 'move-edge-id-not-predicted'],
+  'MoveIDDeltas(includeDescendants=false) picks the collision name of a hoisted child without looking at its siblings that are hoisted too: `c: {z: {e; e 2}; e}`, Move("c.z","d") yields c.e 3 but c.e 2 is predicted'),
+ ('C40-refinement-underscore', 'C40', ANY('sub-underscore', 'x-underscore', 'sube-edge-in-map', 't-underscore', 'anc-underscore', 'dest-underscore'), ['move-refinement', 'rename-refinement', 'delete-refinement', 'move-object-id-not-predicted', 'move-edge-id-not-predicted'],
+  'see C38-hoist-does-not-rewrite-underscore-references / C39-move-does-not-rewrite-underscore-references'),
+ ('C40-board-scoped-move-leaves-the-board', 'C40', F('board-nested') + K('move'), ['move-prediction-for-removed-object', 'move-prediction-for-removed-edge', 'move-object-id-not-predicted', 'move-edge-id-not-predicted', 'move-refinement'],
+  'see C39-board-scoped-move-leaves-the-board'),
+ ('C40-move-ignores-indexed-connection-references', 'C40', ANY('sube-edge-multiref', 'xe-edge-multiref') + K('(move|rename)'), ['move-refinement', 'rename-refinement', 'move-object-id-not-predicted', 'move-edge-id-not-predicted', 'rename-edge-id-not-predicted'],
+  'see C39-move-ignores-indexed-connection-references'),
+ ('C40-move-ensure-node-in-wrong-scope', 'C40', F('anc-edge-dotted', 'x-edge-dotted') + K('move'), ['move-refinement'], 'see C39-move-ensure-node-in-wrong-scope'),
+
+ ('C41-board-delete-attribute-of-inherited-element-writes-base', 'C41', F('x-inherited') + ATTR + r'[^}]*"kind": "delete"',
+  ['scoped-other-board-changed'],
+  'Delete of an attribute addressed to a nested board whose target is inherited from the base board removes the attribute from the base board\'s declaration (witness: `y: {style.fill: red}; scenarios: {s1: {b}}`, Delete(["s1"], "y.style.fill"))'),
+ ('C41-board-set-on-inherited-and-locally-referenced-element-writes-base', 'C41', F('x-inherited-and-local') + K('set'),
+  ['scoped-other-board-changed'],
+  'Set addressed to a nested board on an element that is inherited and also referenced in the board sometimes rewrites the base board\'s key'),
+ ('C41-board-move-into-inherited-container-writes-base', 'C41', ANY('dest-inherited') + K('move'),
+  ['scoped-other-board-changed', 'refused-scoped-other-board-changed'],
+  'Move addressed to a nested board into a container inherited from the base board edits the base board'),
+ ('C41-board-scoped-connection-rename-edits-the-root-board', 'C41', F('board-nested') + r'.*"key": "(?:[^"\\]|\\.)*\((?:[^"\\]|\\.)*", "kind": "rename"',
+  ['scoped-other-board-changed', 'refused-scoped-other-board-changed'],
+  'd2oracle.Rename / Move of a CONNECTION addressed to a nested board looks the connection up in the root graph (`obj := g.Root` in move) and rewrites the arrows of the root board\'s connection with the same key'),
+]
+
+# clause sets observed on the unchanged tree (seeds 1..8 quick + thorough 7/8), per class id
+SETS = json.load(open(__file__.replace('mkfindings.py', 'clause_sets.json'))) if True else {}
+
+def build():
+    out = collections.defaultdict(list)
+    for (fid, prop, inp, cs, what) in T:
+        cs = sorted(set(cs) | set(SETS.get(fid, [])))
+        if not cs:
+            continue
+        m = {'sig': CL(cs)}
+        if inp:
+            m['input'] = inp
+        out[prop].append({'id': fid, 'property': prop, 'status': 'open', 'match': m, 'what': what, 'clauses': cs})
+    return out
+
+LEARN = {'C38-board-scoped-delete-uses-null-children-not-hoisted', 'C39-move-dotted-declaration-with-map', 'C39-move-into-dotted-destination',
+         'C39-move-with-dotted-descendants', 'C39-board-scoped-move-leaves-the-board', 'C40-move-dotted-declaration-with-map',
+         'C40-move-into-dotted-destination', 'C40-move-with-dotted-descendants', 'C40-board-scoped-move-leaves-the-board', 'C40-refinement-underscore'}
+
+def mine(d):
+    seen = collections.defaultdict(set)
+    un = collections.Counter(); ex = {}
+    for f in sorted(glob.glob(d + '/c*-*.jsonl')):
+        prop = f.split('/')[-1].split('-')[0].upper()
+        try:
+            verds = open(f[:-6] + '.verd').read().splitlines()
+        except FileNotFoundError:
+            continue
+        for line, v in zip(open(f), verds):
+            if v.startswith(('ok', 'skip')):
+                continue
+            j = json.loads(line)
+            kind, rest = v.split(' ', 1)
+            sig = rest.partition(' :: ')[0].strip()
+            toks = sig.split('+')
+            cin = json.dumps(j.get('in', {}), sort_keys=True)
+            hit = None
+            for (fid, p, inp, cs, what) in T:
+                if p != prop:
+                    continue
+                if inp and not re.search(inp, cin):
+                    continue
+                if fid not in LEARN and not (set(toks) <= set(cs) | set(SETS.get(fid, []))):
+                    continue
+                hit = fid
+                break
+            if hit:
+                seen[hit] |= set(toks)
+            else:
+                un[(prop, sig)] += 1
+                if (prop, sig) not in ex or len(cin) < len(ex[(prop, sig)]):
+                    ex[(prop, sig)] = cin
+    return seen, un, ex
+
+if __name__ == '__main__':
+    if len(sys.argv) > 2 and sys.argv[1] == '--mine':
+        seen, un, ex = mine(sys.argv[2])
+        cur = dict(SETS)
+        for fid, s in sorted(seen.items()):
+            base = set(next(t[3] for t in T if t[0] == fid)) | set(cur.get(fid, []))
+            new = s - base
+            print(fid, 'NEW:' if new else 'ok', sorted(new))
+            cur[fid] = sorted(set(cur.get(fid, [])) | s)
+        print('UNMATCHED:')
+        for k, c in un.most_common():
+            print('  ', c, k, '\n       ', ex[k][:900])
+        if len(sys.argv) > 3 and sys.argv[3] == '--update':
+            json.dump(cur, open(__file__.replace('mkfindings.py', 'clause_sets.json'), 'w'), indent=1, sort_keys=True)
+            SETS.clear(); SETS.update(cur)
+    for prop, fs in build().items():
+        for f in fs:
+            for v in f['match'].values():
+                re.compile(v)
+        json.dump(fs, open('/verif/props/%s/findings.json' % prop, 'w'), indent=1)
+        print(prop, len(fs))
